@@ -219,28 +219,51 @@ _FRAME_RE = re.compile(r'^\s*File "([^"]+)", line (\d+), in (\S+)')
 _EXC_RE = re.compile(r"^([A-Za-z_][\w.]*(?:Error|Exception|Exit|Interrupt|Warning)?)\b(?::|$)")
 
 
+_IMPLICIT_CHAIN = "During handling of the above exception, another exception occurred"
+
+
 def death_site(log: str) -> str:
-    """`<ExcType>@<file>:<func>` of the deepest frame inside the daemon's own modules in the LAST
-    traceback of the daemon log; 'no-traceback' if the daemon left none."""
-    if not log or "Traceback (most recent call last)" not in log:
+    """`<ExcType>@<file>:<func>[:via=<func called by serve>]` for the exception that ended the daemon,
+    read from the traceback the daemon leaves in its log: deepest frame inside the daemon's own modules,
+    plus the first such frame below `serve` when that is a different function (so that the same transport
+    error reached through the final reply, through a log line written during a command, or through the
+    crash report are different mechanisms). For an implicit chain ("During handling of the above
+    exception ...") the ROOT exception is classified, not the failure of the handler.
+    'no-traceback' if the daemon left none."""
+    marker = "Traceback (most recent call last)"
+    if not log or marker not in log:
         return "no-traceback"
-    block = log[log.rindex("Traceback (most recent call last)"):]
+    parts = log.split(marker)
+    idx = len(parts) - 1
+    while idx > 1 and _IMPLICIT_CHAIN in parts[idx - 1][-400:]:
+        idx -= 1
+    block = parts[idx]
     site = None
+    via = None
     exc = None
+    seen_serve = False
     for ln in block.splitlines()[1:]:
         m = _FRAME_RE.match(ln)
         if m:
             base = os.path.basename(m.group(1))
             if base in ANCHOR_FILES:
                 site = f"{base}:{m.group(3)}"
+                if seen_serve and via is None:
+                    via = m.group(3)
+                if m.group(3) == "serve":
+                    seen_serve = True
             continue
         if ln and not ln.startswith(" "):
             m2 = _EXC_RE.match(ln)
-            if m2:
+            if m2 and exc is None:
                 exc = m2.group(1).split(".")[-1]
                 if exc in ("BrokenPipeError", "ConnectionResetError", "ConnectionAbortedError"):
                     exc = "PeerClosedError"  # EPIPE or ECONNRESET depending on what the closed peer had left unread
-    return f"{exc or 'UnknownException'}@{site or 'outside-daemon-modules'}"
+                break
+    out = f"{exc or 'UnknownException'}@{site or 'outside-daemon-modules'}"
+    if via and site and not site.endswith(":" + via):
+        out += f":via={via}"
+    return out
 
 
 def how_exited(ws: int | None) -> str:
